@@ -229,7 +229,7 @@ def check(tier):
     }
     rep.assumptions = [
         "theorems are about coq/DigitModel.v; the C++ is tied by gen/Tables_digit.v and the finite differential run reported here",
-        "the claim 'text = printf reference for every double and precision' is NOT proved (Definition c10_real_matches_reference): after findings/D48 and D49 no counterexample is known; PROVED: the scaled big integer and the round_up flag are exact for every value with |value| >= 1 (c10_scale_exact_integer_path / c10_scale_exact_fraction_path_ge1); NOT proved: values below 1 (early 64-bit word drops), the digit emission and the formatters -- tested against the exact reference on every generated case",
+        "the claim 'text = printf reference for every double and precision' is NOT proved (Definition c10_real_matches_reference): after findings/D48 and D49 no counterexample is known; PROVED: the scaled big integer and the round_up flag are exact for every value with |value| >= 1 (c10_scale_exact_integer_path / c10_scale_exact_fraction_path_ge1); the digit run is the exact decimal expansion (c10_big_to_string_digits, c10_digit_run_exact_*) and the rounding decision is round-half-even on the exact value (c10_round_decision_is_half_even); NOT proved: values below 1 (early 64-bit word drops), the assembly of the text after the rounding decision (carry, zero give-back, point, padding) -- tested against the exact reference on every generated case",
         "BigInt is abstracted to its value (no overflow observed: the model reports an explicit error otherwise)",
         "describes /repo with findings/D28, D33, D41..D46, D48, D49 applied (all fix: commits)",
     ]
